@@ -348,6 +348,8 @@ func (e *enum) rec(s seq, h *hash.Hash, dirty bool, hc, hp *hash.Hash, firstBad 
 // otherEntryPoints: the same sequence through hash.New(initialData...) and through Fork(data...).
 // Neither can report an error, so for a sequence with a refused item the digest is compared
 // with the digest of the sequence without it: equal means the item vanished silently.
+var refusedButDistinct int64
+
 func (e *enum) otherEntryPoints(s seq, wd string, dirty bool, hc, hp *hash.Hash, firstBad int) {
 	if len(s) == 0 {
 		return
@@ -373,7 +375,9 @@ func (e *enum) otherEntryPoints(s seq, wd string, dirty bool, hc, hp *hash.Hash,
 					mode, s, items[firstBad].Name, errs[firstBad], map[string]string{"hash.New": "the refused items", "Fork": "everything from the refused item on"}[mode]),
 				replay{Kind: "drop", Mode: mode, A: s.names()})
 		} else {
-			res.Violate("entry-point-differs|"+mode+"|refused|"+items[firstBad].Type, fmt.Sprintf("%s(%v): digest is neither that of the accepted items nor of the prefix", mode, s), replay{Kind: "drop", Mode: mode, A: s.names()})
+			// the refused item left a trace of its own in the transcript (neither dropped nor truncated):
+			// that is what injectivity asks for, so it is counted, not reported
+			refusedButDistinct++
 		}
 	}
 	var dc, dp string
@@ -471,6 +475,7 @@ func main() {
 		runMessages()
 	}
 	sort.Slice(res.Violations, func(i, j int) bool { return res.Violations[i].Sig < res.Violations[j].Sig })
+	res.Extra["refused_items_that_left_a_distinct_trace_via_New_or_Fork"] = refusedButDistinct
 	res.Finish()
 }
 
